@@ -33,8 +33,8 @@ var c16Weights = []struct {
 	name string
 	w    float64
 }{
-	{"mgr", 3}, {"mgr-wide", 2}, {"mgr-zerolen", 0.1}, {"mgr-uquic", 2}, {"spec-limits", 0.1},
-	{"gen-server", 2}, {"gen-client", 1.5}, {"gen-zerolen", 0.1}, {"transport", 2.5},
+	{"mgr", 3}, {"mgr-wide", 2}, {"mgr-zerolen", 0.1}, {"mgr-uquic", 3.5}, {"spec-limits", 0.1},
+	{"gen-server", 1.5}, {"gen-client", 1.2}, {"gen-zerolen", 0.1}, {"transport", 2.5},
 }
 
 func c16Slice(e explore.Env, name string) explore.Env {
